@@ -283,8 +283,10 @@ RenewTok == /\ Alive /\ "renew" \in Moves /\ ~renewed
             /\ \A m \in Msgs : ~InProgress(m)
             /\ renewed' = TRUE
             /\ nextSeq' = IF nextSeq = sp.wrapAfter THEN sp.wrapTo ELSE IF nextSeq = -1 THEN 0 ELSE nextSeq + 1
-            /\ rc' = IF Dev_ResetSeqOnRenew THEN [rc EXCEPT !.lastSeq = None] ELSE rc
-            /\ UNCHANGED ra
+            \* the receiver sees the OPN chunk of the exchange: it carries the stream's next number
+            /\ rc' = IF Dev_ResetSeqOnRenew THEN [rc EXCEPT !.lastSeq = None]
+                      ELSE [rc EXCEPT !.lastSeq = IF SeqFollows(@, nextSeq) THEN nextSeq ELSE @]
+            /\ ra' = [ra EXCEPT !.lastSeq = IF SeqFollows(@, nextSeq) THEN nextSeq ELSE @]
             /\ hist' = Append(hist, [in |-> "renew", id |-> Len(wire), dmg |-> "none", kind |-> "-", req |-> 0, seq |-> nextSeq,
                                      expect |-> "none", asis |-> "none", parts |-> <<>>, whole |-> FALSE,
                                      asis_parts |-> <<>>, asis_whole |-> FALSE])
@@ -322,7 +324,9 @@ Terminal   == ~Alive \/ (SenderDone /\ held = <<>>)
 \* C10: no chunk is accepted twice and accepted sequence numbers follow each other
 InvNoReplay ==
   /\ \A i, j \in 1..Len(rc.accepted) : i # j => rc.accepted[i].id # rc.accepted[j].id
-  /\ \A i \in 1..Len(rc.accepted) - 1 : SeqFollows(rc.accepted[i].seq, rc.accepted[i + 1].seq)
+  \* strictly increasing in serial-number arithmetic (the OPN chunk of a renewal may lie in between,
+  \* so the legality of a wrap is checked where it happens: StepSeqMonotone)
+  /\ \A i \in 1..Len(rc.accepted) - 1 : rc.accepted[i + 1].seq - rc.accepted[i].seq > 0
 InvNoDoubleDelivery ==
   LET RECURSIVE Flat(_)
       Flat(ss) == IF ss = <<>> THEN <<>> ELSE Head(ss) \o Flat(Tail(ss))
